@@ -1,3 +1,115 @@
 import Anytree.Spec.Attr
+import Anytree.Lemmas.Chain
+import Anytree.Lemmas.Copy
+/-!
+# C19 — pickle and deepcopy yield an independent, consistent, isomorphic tree (the modelled part)
+-/
 namespace Anytree.Props.C19
+open Anytree Attr Spec Forest
+
+/-! ## attribute probing on a half-built instance terminates exactly for the guarded names -/
+
+/-- with the guard that `SymlinkNodeMixin.__getattr__` has (names extracted from the source),
+probing `__setstate__` on an instance whose `__dict__` is still empty raises AttributeError at once -/
+theorem lookup_guarded_terminates (fuel : Nat) :
+    getattrRaw Generated.symlinkGetattrGuarded [] (fuel + 1) "__setstate__" = .attributeError := by
+  simp [getattrRaw, dictGet, Generated.symlinkGetattrGuarded, Generated.symlinkGetattrLocal]
+
+/-- without the guard the same probe recurses through `self.target` for ever -/
+theorem lookup_unguarded_diverges (name : String)
+    (hn : Generated.symlinkGetattrLocal.contains name = false) :
+    ∀ fuel, getattrRaw [] [] fuel name = .diverged := by
+  intro fuel
+  induction fuel generalizing name with
+  | zero => rfl
+  | succ f ih =>
+    have ht := ih "target" (by decide)
+    rw [getattrRaw]
+    simp only [dictGet, List.find?_nil, Option.map_none, hn, List.contains_nil, ht,
+      Bool.false_eq_true, if_false]
+
+/-- once the state is restored (`target` present) lookups of other names no longer recurse -/
+theorem lookup_restored (guarded : List String) (dict : List (String × Nat)) (t : Nat)
+    (ht : dictGet dict "target" = some t) (fuel : Nat) (name : String) :
+    getattrRaw guarded dict (fuel + 2) name ≠ .diverged := by
+  have hin : getattrRaw guarded dict (fuel + 1) "target" = .value t := by
+    rw [getattrRaw]; simp only [ht]
+  rw [getattrRaw]
+  cases hd : dictGet dict name with
+  | some v => simp
+  | none =>
+    simp only []
+    cases h1 : Generated.symlinkGetattrLocal.contains name with
+    | true => simp
+    | false =>
+      cases h2 : guarded.contains name with
+      | true => simp
+      | false => simp [hin]
+
+/-! ## what a deep copy reaches -/
+
+/-- everything reached is connected to the entry node through parent / children / target references -/
+inductive Conn (s : Forest) (tg : Nat → Option Nat) (n : Nat) : Nat → Prop
+  | refl : Conn s tg n n
+  | parent {x p} : Conn s tg n x → s.parent x = some p → Conn s tg n p
+  | child {x c} : Conn s tg n x → c ∈ s.children x → Conn s tg n c
+  | target {x t} : Conn s tg n x → tg x = some t → Conn s tg n t
+
+theorem reach_sound (s : Forest) (tg : Nat → Option Nat) (n : Nat) :
+    ∀ x ∈ reach s tg n, Conn s tg n x := by
+  intro x hx
+  refine reachF_inv (Conn s tg n) (fun _ _ h e => h.parent e) (fun _ _ h e => h.child e)
+    (fun _ _ h e => h.target e) _ [n] [] ?_ ?_ x hx
+  · intro y hy; simp only [List.mem_singleton] at hy; subst hy; exact Conn.refl
+  · intro y hy; cases hy
+
+/-- the traversal never lists an object twice -/
+theorem reach_nodup (s : Forest) (tg : Nat → Option Nat) (n : Nat) : (reach s tg n).Nodup := by
+  exact reachF_nodup _ _ _ List.nodup_nil
+
+/-- completeness of the traversal: in a consistent forest, with the entry node and all link targets
+existing objects, the fuel `(n+1)*(n+3)` suffices — everything connected to the entry node is listed -/
+theorem reach_complete (s : Forest) (h : Inv s) (tg : Nat → Option Nat)
+    (htg : ∀ x, x < s.n → ∀ t, tg x = some t → t < s.n) (n : Nat) (hn : n < s.n) :
+    ∀ x, Conn s tg n x → x ∈ reach s tg n := by
+  obtain ⟨h0, hcl⟩ := reach_closed h htg hn
+  intro x hc
+  induction hc with
+  | refl => exact h0
+  | @parent x p _ hp ih =>
+    exact hcl x ih p (by simp [nb, hp])
+  | @child x c _ hcx ih =>
+    exact hcl x ih c (by simp [nb, hcx])
+  | @target x t _ ht ih =>
+    exact hcl x ih t (by simp [nb, ht])
+
+/-- the traversal lists exactly the objects connected to the entry node -/
+theorem mem_reach_iff (s : Forest) (h : Inv s) (tg : Nat → Option Nat)
+    (htg : ∀ x, x < s.n → ∀ t, tg x = some t → t < s.n) (n : Nat) (hn : n < s.n) (x : Nat) :
+    x ∈ reach s tg n ↔ Conn s tg n x :=
+  ⟨reach_sound s tg n x, reach_complete s h tg htg n hn x⟩
+
+/-- in a consistent forest, a node connected to `n` by parent/children references alone lies in the
+tree of `n`: it has the same root -/
+theorem same_tree_of_conn (s : Forest) (h : Inv s) (n x : Nat)
+    (hc : Conn s (fun _ => none) n x) :
+    ∃ r, (∃ k, s.up k n = some r) ∧ (∃ k, s.up k x = some r) ∧ s.parent r = none := by
+  induction hc with
+  | refl =>
+    obtain ⟨r, k, hk, hr⟩ := h.has_root n
+    exact ⟨r, ⟨k, hk⟩, ⟨k, hk⟩, hr⟩
+  | @parent x p _ hp ih =>
+    obtain ⟨r, hn, ⟨k, hk⟩, hr⟩ := ih
+    refine ⟨r, hn, ?_, hr⟩
+    cases k with
+    | zero =>
+      simp only [up, Option.some.injEq] at hk
+      subst hk; rw [hr] at hp; cases hp
+    | succ k => rw [up_succ_of_parent hp] at hk; exact ⟨k, hk⟩
+  | @child x c _ hcx ih =>
+    obtain ⟨r, hn, ⟨k, hk⟩, hr⟩ := ih
+    have hp : s.parent c = some x := (h.bidir c x).mpr hcx
+    exact ⟨r, hn, ⟨k + 1, by rw [up_succ_of_parent hp]; exact hk⟩, hr⟩
+  | target _ ht => cases ht
+
 end Anytree.Props.C19
